@@ -119,6 +119,7 @@ def extract(us, workdir):
     text = unit.emit(us.emit)
     us.c_text = text
     us.dropped_loops = list(getattr(unit, 'dropped_loops', []))
+    us.dropped_helper_ghosts = list(getattr(unit, 'dropped_helper_ghosts', []))
     us.auto_stubs = list(getattr(unit, 'auto_stubs', []))      # const observers defined in another TU: replaced by 'any result, no side effect'
     os.makedirs(workdir, exist_ok=True)
     cpath = os.path.join(workdir, us.name + '.c')
@@ -416,6 +417,11 @@ def check_property(prop, tier='quick', seed=0, meta=None, only_unit=None, only_t
         u, t = ut
         try:
             ob, cmd = run_target(u, t, workdir, tier, log)
+            gone = [h for h in getattr(u, 'dropped_helper_ghosts', []) if t.enforce and h.startswith(t.enforce + '__')]
+            if gone and any(o.status != 'SUCCESS' and CANARY not in o.desc for o in ob):
+                # ghost code attached to a printer-generated helper of this function was dropped because the (changed) code no longer has
+                # that helper; obligations that read those ghosts can fail for that reason alone, so a failure here decides nothing
+                return (u, t, [], '', 'spec/code mismatch: ghost annotations of %s no longer attach (the function was restructured); %d obligations fail but may depend on them' % (', '.join(sorted(set(gone))), sum(1 for o in ob if o.status != 'SUCCESS' and CANARY not in o.desc)))
             return (u, t, ob, cmd, None)
         except Undecided as e:
             msg = str(e)
